@@ -97,6 +97,44 @@ theorem closePipes_lstep : ∀ (is : List Nat) {ws : List Worker} {q : ErrQ}, Ba
     have := h1.trans (closePipes_lstep is hb1 h2)
     simpa [closePipes] using this
 
+/-! ### no worker sleeps for good -/
+
+/-- no worker is (or can get) stuck for good: no script contains a `stuck` fault -/
+def NS (ws : List Worker) : Prop := ∀ w ∈ ws, NoStuck w
+
+theorem NS.mapUntil {f : Worker → StepRes} (hf : KeepsNoStuck f) {ws : List Worker} (h : NS ws) :
+    NS (mapUntil f ws).1 := mapUntil_preserves f NoStuck hf ws h
+
+theorem NS.map {ws : List Worker} (h : NS ws) (g : Worker → Worker)
+    (hg : ∀ w, (g w).forever = w.forever ∧ (g w).faults = w.faults) : NS (ws.map g) := by
+  intro w1 hw1
+  obtain ⟨w, hw, rfl⟩ := List.mem_map.mp hw1
+  have := h w hw
+  exact ⟨by rw [(hg w).1]; exact this.1, by rw [(hg w).2]; exact this.2⟩
+
+theorem NS.terminateAll {ws : List Worker} (h : NS ws) : NS (terminateAll ws) :=
+  h.map _ (fun _ => ⟨rfl, rfl⟩)
+
+theorem NS.closePipe {ws : List Worker} (h : NS ws) (i : Nat) : NS (closePipe i ws) :=
+  h.map _ (fun w => by by_cases hi : w.idx = i <;> simp [hi])
+
+theorem NS.closePipes : ∀ (is : List Nat) {ws : List Worker}, NS ws → NS (closePipes is ws)
+  | [], _, h => h
+  | i :: is, _, h => by
+    have := NS.closePipes is (h.closePipe i)
+    simpa [VecProto.closePipes] using this
+
+theorem raiseIfErrors_ns (s : State) (rs : List Reply) (h : NS s.ws) : NS (raiseIfErrors s rs).1.ws := by
+  unfold raiseIfErrors
+  dsimp only
+  split
+  · exact h
+  · split
+    · exact h
+    · split
+      · exact NS.closePipes _ h
+      · exact h
+
 /-! ### `_raise_if_errors` -/
 
 theorem raiseIfErrors_spec (s : State) (rs : List Reply) (hb : Base s.ws s.errq)
@@ -138,8 +176,31 @@ theorem raiseIfErrors_spec (s : State) (rs : List Reply) (hb : Base s.ws s.errq)
 /-- every pipe is open and every live worker has a reply waiting -/
 def Replied (ws : List Worker) : Prop := ∀ w ∈ ws, w.pipeOpen = true ∧ (w.st = .alive → w.inbox ≠ [])
 
+theorem waitCore_ns (s : State) (c : Cmd) (timed : Bool) (h : NS s.ws) : NS (waitCore s c timed).1.ws := by
+  unfold waitCore
+  split
+  · exact h
+  · dsimp only
+    have h0 : NS (if s.fixed = true then { s with astate := .default } else s).ws := by
+      split <;> exact h
+    generalize (if s.fixed = true then { s with astate := .default } else s) = s0 at h0 ⊢
+    have h1 := NS.mapUntil (recvOne_nostuck (inlineChk c)) h0
+    rcases hm : mapUntil (recvOne (inlineChk c)) s0.ws with ⟨ws1, e, rs, o⟩
+    rw [hm] at h1
+    cases o with
+    | some o => exact h1
+    | none =>
+      dsimp only
+      have h2 := raiseIfErrors_ns { s0 with ws := ws1, errq := s0.errq ++ e } rs h1
+      rcases hr : raiseIfErrors { s0 with ws := ws1, errq := s0.errq ++ e } rs with ⟨s2, o2⟩
+      rw [hr] at h2
+      cases o2 with
+      | ok => dsimp only; split <;> exact h2
+      | err x => exact h2
+      | hang => exact h2
+
 theorem waitCore_spec (s : State) (c : Cmd) (timed : Bool) (hf : s.fixed = true) (hb : Base s.ws s.errq)
-    (hpre : Replied s.ws) :
+    (hpre : Replied s.ws) (hns : NS s.ws) :
     (waitCore s c timed).2 ≠ .hang ∧ Base (waitCore s c timed).1.ws (waitCore s c timed).1.errq ∧
     (waitCore s c timed).1.astate = .default ∧ (waitCore s c timed).1.fixed = true ∧
     (waitCore s c timed).1.closed = s.closed := by
@@ -151,7 +212,7 @@ theorem waitCore_spec (s : State) (c : Cmd) (timed : Bool) (hf : s.fixed = true)
     rcases hm : mapUntil (recvOne (inlineChk c)) s.ws with ⟨ws1, e, rs, o⟩
     have hl := mapUntil_lstep _ (recvOne_good _ (inlineChk_fail c)) s.ws
     have hnh := mapUntil_stop_ne (recvOne (inlineChk c)) .hang s.ws
-      (fun w hw => recvOne_no_hang _ w (hpre w hw).1 (hpre w hw).2 (hb.hb w hw))
+      (fun w hw => recvOne_no_hang _ w (hpre w hw).1 (hpre w hw).2 (hb.hb w hw) (hns w hw).1)
     rw [hm] at hl hnh
     obtain ⟨hb1, hlen⟩ := hb.step hl
     dsimp only at hb1 hlen hnh
@@ -184,6 +245,7 @@ structure Inv (s : State) : Prop where
   base : Base s.ws s.errq
   waiting : s.closed = false → s.astate ≠ .default → Replied s.ws
   closed : s.closed = true → ∀ w ∈ s.ws, w.st = .exited
+  ns : NS s.ws
 
 theorem sendOne_no_hang (c : Cmd) (w : Worker) : (sendOne c w).2.2.2 ≠ some .hang := by
   unfold sendOne
@@ -215,16 +277,17 @@ theorem asyncOp_spec (s : State) (c : Cmd) (t : AState) (hi : Inv s) :
       have hl := mapUntil_lstep _ (sendOne_good c) s.ws
       have hnh := mapUntil_stop_ne (sendOne c) .hang s.ws (fun w _ => sendOne_no_hang c w)
       have hrep := sendAll_replied c s.ws
-      rw [hm] at hl hnh hrep
+      have hns1 := NS.mapUntil (sendOne_nostuck c) hi.ns
+      rw [hm] at hl hnh hrep hns1
       obtain ⟨hb1, _⟩ := hi.base.step hl
       cases o with
       | some o =>
         dsimp only
-        refine ⟨⟨hi.fixed, hb1, fun _ h => absurd hd' h, fun h => ?_⟩, fun h => hnh (by rw [h])⟩
+        refine ⟨⟨hi.fixed, hb1, fun _ h => absurd hd' h, fun h => ?_, hns1⟩, fun h => hnh (by rw [h])⟩
         rw [hc'] at h; cases h
       | none =>
         dsimp only
-        refine ⟨⟨hi.fixed, hb1, fun _ _ => hrep rfl, fun h => ?_⟩, by simp⟩
+        refine ⟨⟨hi.fixed, hb1, fun _ _ => hrep rfl, fun h => ?_, hns1⟩, by simp⟩
         rw [hc'] at h; cases h
 
 theorem waitOp_spec (s : State) (a : AState) (timed : Bool) (hi : Inv s) (hne : a ≠ .default) :
@@ -238,8 +301,8 @@ theorem waitOp_spec (s : State) (a : AState) (timed : Bool) (hi : Inv s) (hne : 
       have hc' : s.closed = false := by simpa using hc
       have hd' : s.astate = a := by simpa using hd
       have hrep := hi.waiting hc' (hd' ▸ hne)
-      obtain ⟨h1, h2, h3, h4, h5⟩ := waitCore_spec s (cmdOf a) timed hi.fixed hi.base hrep
-      refine ⟨⟨h4, h2, fun _ h => absurd h3 h, fun h => ?_⟩, h1⟩
+      obtain ⟨h1, h2, h3, h4, h5⟩ := waitCore_spec s (cmdOf a) timed hi.fixed hi.base hrep hi.ns
+      refine ⟨⟨h4, h2, fun _ h => absurd h3 h, fun h => ?_, waitCore_ns s _ timed hi.ns⟩, h1⟩
       rw [h5, hc'] at h; cases h
 
 theorem setAttrOp_spec (s : State) (hi : Inv s) : Inv (setAttrOp s).1 ∧ (setAttrOp s).2 ≠ .hang := by
@@ -255,18 +318,20 @@ theorem setAttrOp_spec (s : State) (hi : Inv s) : Inv (setAttrOp s).1 ∧ (setAt
       have hl := mapUntil_lstep _ (sendOne_good .setattr) s.ws
       have hnh := mapUntil_stop_ne (sendOne .setattr) .hang s.ws (fun w _ => sendOne_no_hang _ w)
       have hrep := sendAll_replied .setattr s.ws
-      rw [hm] at hl hnh hrep
+      have hns1 := NS.mapUntil (sendOne_nostuck .setattr) hi.ns
+      rw [hm] at hl hnh hrep hns1
       obtain ⟨hb1, _⟩ := hi.base.step hl
       cases o with
       | some o =>
         dsimp only
-        refine ⟨⟨hi.fixed, hb1, fun _ h => absurd hd' h, fun h => ?_⟩, fun h => hnh (by rw [h])⟩
+        refine ⟨⟨hi.fixed, hb1, fun _ h => absurd hd' h, fun h => ?_, hns1⟩, fun h => hnh (by rw [h])⟩
         rw [hc'] at h; cases h
       | none =>
         dsimp only
         obtain ⟨h1, h2, h3, h4, h5⟩ := waitCore_spec { s with ws := ws1, errq := s.errq ++ e } .setattr false
-          hi.fixed hb1 (hrep rfl)
-        refine ⟨⟨h4, h2, fun _ h => absurd h3 h, fun h => ?_⟩, h1⟩
+          hi.fixed hb1 (hrep rfl) hns1
+        refine ⟨⟨h4, h2, fun _ h => absurd h3 h, fun h => ?_,
+          waitCore_ns { s with ws := ws1, errq := s.errq ++ e } .setattr false hns1⟩, h1⟩
         rw [h5] at h; dsimp only at h; rw [hc'] at h; cases h
 
 /-! ### close -/
@@ -298,79 +363,145 @@ structure Closed (s s' : State) (o : Outcome) : Prop where
   base : Base s'.ws s'.errq
   fixed : s'.fixed = s.fixed
   astate : s'.astate = s.astate
+  ns : NS s'.ws
 
-theorem terminate_closed (s : State) (hb : Base s.ws s.errq) :
+theorem terminate_closed (s : State) (hb : Base s.ws s.errq) (hns : NS s.ws) :
     Closed s { s with ws := terminateAll s.ws, closed := true } .ok := by
   have := (hb.step (terminateAll_lstep s.ws)).1
   rw [List.append_nil] at this
-  exact ⟨rfl, rfl, terminateAll_exited s.ws, this, rfl, rfl⟩
+  exact ⟨rfl, rfl, terminateAll_exited s.ws, this, rfl, rfl, hns.terminateAll⟩
 
-theorem closeFail_closed (s : State) (o : Outcome) (hf : s.fixed = true) (hb : Base s.ws s.errq) (ho : o ≠ .hang) :
-    Closed s (closeFail s o).1 (closeFail s o).2 := by
+theorem closeFail_closed (s : State) (o : Outcome) (hf : s.fixed = true) (hb : Base s.ws s.errq) (ho : o ≠ .hang)
+    (hns : NS s.ws) : Closed s (closeFail s o).1 (closeFail s o).2 := by
   unfold closeFail
   cases o with
   | hang => exact absurd rfl ho
-  | ok => dsimp only; rw [if_pos hf]; exact terminate_closed s hb
-  | err x => dsimp only; rw [if_pos hf]; exact terminate_closed s hb
+  | ok => dsimp only; rw [if_pos hf]; exact terminate_closed s hb hns
+  | err x => dsimp only; rw [if_pos hf]; exact terminate_closed s hb hns
 
 theorem Closed.transfer {s s' x : State} {o : Outcome} (h : Closed s' x o) (hf : s'.fixed = s.fixed)
     (ha : s'.astate = s.astate) : Closed s x o :=
-  ⟨h.ok, h.closed, h.dead, h.base, h.fixed.trans hf, h.astate.trans ha⟩
+  ⟨h.ok, h.closed, h.dead, h.base, h.fixed.trans hf, h.astate.trans ha, h.ns⟩
 
-theorem closeTail_spec (s : State) (terminate : Bool) (hf : s.fixed = true) (hb : Base s.ws s.errq) :
-    Closed s (closeTail s terminate).1 (closeTail s terminate).2 := by
+theorem ready_recv (w : Worker) (hr : w.ready = true) :
+    (recvOne (fun _ => none) w).2.2.2 = none ∨ (recvOne (fun _ => none) w).2.2.2 = some (.err .eof) := by
+  unfold Worker.ready at hr
+  have hp : w.pipeOpen = true := by
+    cases h : w.pipeOpen <;> simp [h] at hr ⊢
+  unfold recvOne Worker.recv
+  simp only [hp, Bool.true_eq_false, if_false]
+  cases hi : w.inbox with
+  | cons r rest => exact Or.inl rfl
+  | nil =>
+    have : w.st = .exited := by simpa [hp, hi] using hr
+    simp [this]
+
+theorem recvReadyOne_no_hang (w : Worker) : (recvReadyOne w).2.2.2 ≠ some .hang := by
+  unfold recvReadyOne
+  split
+  · simp
+  · split
+    · simp
+    · rename_i _ hr
+      have hr' : w.ready = true := by simpa using hr
+      rcases ready_recv w hr' with h | h <;> rw [h] <;> simp
+
+theorem recvReadyOne_good : Good recvReadyOne := by
+  intro w
+  unfold recvReadyOne
+  split
+  · simpa using WStep.refl w
+  · split
+    · simpa using WStep.refl w
+    · exact recvOne_good _ rfl w
+
+theorem recvReadyOne_nostuck : KeepsNoStuck recvReadyOne := by
+  intro w h
+  unfold recvReadyOne
+  split
+  · exact h
+  · split
+    · exact h
+    · exact recvOne_nostuck _ w h
+
+theorem closeTail_spec (s : State) (timed terminate : Bool) (hf : s.fixed = true) (hb : Base s.ws s.errq)
+    (hns : NS s.ws) : Closed s (closeTail s timed terminate).1 (closeTail s timed terminate).2 := by
   unfold closeTail
   split
-  · exact terminate_closed s hb
+  · exact terminate_closed s hb hns
   · -- send `close`
     rcases hm1 : mapUntil sendCloseOne s.ws with ⟨ws1, e1, rs1, o1⟩
     have hl1 := mapUntil_lstep _ sendCloseOne_good s.ws
     have hnh1 := mapUntil_stop_ne sendCloseOne .hang s.ws (fun w _ => sendCloseOne_no_hang w)
     have hjr1 := mapUntil_all_of_none sendCloseOne (fun w => w.pipeOpen = false → w.st = .exited) JoinReady
       (fun w hp hn => sendCloseOne_none w hp hn) s.ws hb.pipe
-    rw [hm1] at hl1 hnh1 hjr1
+    have hns1 := NS.mapUntil sendCloseOne_nostuck hns
+    rw [hm1] at hl1 hnh1 hjr1 hns1
     obtain ⟨hb1, _⟩ := hb.step hl1
-    dsimp only at hb1 hnh1 hjr1
+    dsimp only at hb1 hnh1 hjr1 hns1
     cases o1 with
     | some o =>
       dsimp only
       exact (closeFail_closed { s with ws := ws1, errq := s.errq ++ e1 } o hf hb1
-        (fun h => hnh1 (by rw [h]))).transfer rfl rfl
+        (fun h => hnh1 (by rw [h])) hns1).transfer rfl rfl
     | none =>
       dsimp only
       have hjr1 := hjr1 rfl
-      -- receive the replies
-      rcases hm2 : mapUntil recvCloseOne ws1 with ⟨ws2, e2, rs2, o2⟩
-      have hl2 := mapUntil_lstep _ recvCloseOne_good ws1
-      have hnh2 := mapUntil_stop_ne recvCloseOne .hang ws1 (fun w hw => (recvCloseOne_joinReady w (hjr1 w hw)).2)
-      have hjr2 := mapUntil_preserves recvCloseOne JoinReady (fun w hw => (recvCloseOne_joinReady w hw).1) ws1 hjr1
-      rw [hm2] at hl2 hnh2 hjr2
-      obtain ⟨hb2, _⟩ := hb1.step hl2
-      dsimp only at hb2 hnh2 hjr2
-      cases o2 with
-      | some o =>
-        dsimp only
-        exact (closeFail_closed { s with ws := ws2, errq := s.errq ++ e1 ++ e2 } o hf hb2
-          (fun h => hnh2 (by rw [h]))).transfer rfl rfl
-      | none =>
-        dsimp only
-        -- join
-        rcases hm3 : mapUntil joinOne ws2 with ⟨ws3, e3, rs3, o3⟩
-        have hl3 := mapUntil_lstep _ joinOne_good ws2
-        have hn3 := mapUntil_none_of_all joinOne ws2 (fun w hw => (joinOne_joinReady w (hjr2 w hw)).1)
-        have hall := mapUntil_none_all joinOne ws2 hn3
-        rw [hm3] at hl3 hn3 hall
-        obtain ⟨hb3, _⟩ := hb2.step hl3
-        dsimp only at hb3 hn3 hall
-        subst hn3
-        dsimp only
-        refine ⟨rfl, rfl, ?_, hb3, rfl, rfl⟩
-        intro w3 hw3
-        obtain ⟨w2, hw2, rfl, _⟩ := hall w3 hw3
-        exact (joinOne_joinReady w2 (hjr2 w2 hw2)).2.1
+      split
+      · -- `fix2` with a timeout: poll before every recv, whoever is left is terminated
+        rcases hm2 : mapUntil recvReadyOne ws1 with ⟨ws2, e2, rs2, o2⟩
+        have hl2 := mapUntil_lstep _ recvReadyOne_good ws1
+        have hnh2 := mapUntil_stop_ne recvReadyOne .hang ws1 (fun w _ => recvReadyOne_no_hang w)
+        have hns2 := NS.mapUntil recvReadyOne_nostuck hns1
+        rw [hm2] at hl2 hnh2 hns2
+        obtain ⟨hb2, _⟩ := hb1.step hl2
+        dsimp only at hb2 hnh2 hns2
+        have key := (terminate_closed { s with ws := ws2, errq := s.errq ++ e1 ++ e2 }
+          hb2 hns2).transfer (s := s) rfl rfl
+        cases o2 with
+        | none => exact key
+        | some o =>
+          cases o with
+          | hang => exact absurd rfl hnh2
+          | ok => exact key
+          | err x => exact key
+      · -- receive the replies
+        rcases hm2 : mapUntil recvCloseOne ws1 with ⟨ws2, e2, rs2, o2⟩
+        have hl2 := mapUntil_lstep _ recvCloseOne_good ws1
+        have hnh2 := mapUntil_stop_ne recvCloseOne .hang ws1
+          (fun w hw => (recvCloseOne_joinReady w (hns1 w hw) (hjr1 w hw)).2)
+        have hjr2 := mapUntil_preserves recvCloseOne (fun w => NoStuck w ∧ JoinReady w)
+          (fun w hw => ⟨recvCloseOne_nostuck w hw.1, (recvCloseOne_joinReady w hw.1 hw.2).1⟩) ws1
+          (fun w hw => ⟨hns1 w hw, hjr1 w hw⟩)
+        rw [hm2] at hl2 hnh2 hjr2
+        obtain ⟨hb2, _⟩ := hb1.step hl2
+        dsimp only at hb2 hnh2 hjr2
+        cases o2 with
+        | some o =>
+          dsimp only
+          exact (closeFail_closed { s with ws := ws2, errq := s.errq ++ e1 ++ e2 } o hf hb2
+            (fun h => hnh2 (by rw [h])) (fun w hw => (hjr2 w hw).1)).transfer rfl rfl
+        | none =>
+          dsimp only
+          -- join
+          rcases hm3 : mapUntil joinOne ws2 with ⟨ws3, e3, rs3, o3⟩
+          have hl3 := mapUntil_lstep _ joinOne_good ws2
+          have hn3 := mapUntil_none_of_all joinOne ws2
+            (fun w hw => (joinOne_joinReady w (hjr2 w hw).1 (hjr2 w hw).2).1)
+          have hall := mapUntil_none_all joinOne ws2 hn3
+          have hns3 := NS.mapUntil joinOne_nostuck (fun w hw => (hjr2 w hw).1)
+          rw [hm3] at hl3 hn3 hall hns3
+          obtain ⟨hb3, _⟩ := hb2.step hl3
+          dsimp only at hb3 hn3 hall hns3
+          subst hn3
+          dsimp only
+          refine ⟨rfl, rfl, ?_, hb3, rfl, rfl, hns3⟩
+          intro w3 hw3
+          obtain ⟨w2, hw2, rfl, _⟩ := hall w3 hw3
+          exact (joinOne_joinReady w2 (hjr2 w2 hw2).1 (hjr2 w2 hw2).2).2.1
 
 theorem Closed.inv {s s' : State} {o : Outcome} (h : Closed s s' o) (hf : s.fixed = true) : Inv s' :=
-  ⟨h.fixed.trans hf, h.base, fun hc _ => (by rw [h.closed] at hc; cases hc), fun _ => h.dead⟩
+  ⟨h.fixed.trans hf, h.base, fun hc _ => (by rw [h.closed] at hc; cases hc), fun _ => h.dead, h.ns⟩
 
 /-- the repaired `close()` on an open environment: returns, marks it closed, no worker is left -/
 theorem closeOp_spec (s : State) (timed terminate : Bool) (hi : Inv s) (hc : s.closed = false) :
@@ -379,18 +510,19 @@ theorem closeOp_spec (s : State) (timed terminate : Bool) (hi : Inv s) (hc : s.c
   unfold closeOp
   rw [if_neg (by simp [hc])]
   split
-  · have h := closeTail_spec s terminate hi.fixed hi.base
+  · have h := closeTail_spec s timed terminate hi.fixed hi.base hi.ns
     exact ⟨h.ok, h.closed, h.dead, h.inv hi.fixed⟩
   · rename_i hd
     obtain ⟨h1, h2, h3, h4, h5⟩ := waitCore_spec s (cmdOf s.astate) (timed || terminate) hi.fixed hi.base
-      (hi.waiting hc hd)
+      (hi.waiting hc hd) hi.ns
+    have hns1 := waitCore_ns s (cmdOf s.astate) (timed || terminate) hi.ns
     rcases hw : waitCore s (cmdOf s.astate) (timed || terminate) with ⟨s1, o⟩
-    rw [hw] at h1 h2 h3 h4 h5
-    dsimp only at h1 h2 h3 h4 h5
-    have key : ∀ k : Bool, (closeTail s1 k).2 = .ok ∧ (closeTail s1 k).1.closed = true ∧
-        (∀ w ∈ (closeTail s1 k).1.ws, w.st = .exited) ∧ Inv (closeTail s1 k).1 := by
+    rw [hw] at h1 h2 h3 h4 h5 hns1
+    dsimp only at h1 h2 h3 h4 h5 hns1
+    have key : ∀ k : Bool, (closeTail s1 timed k).2 = .ok ∧ (closeTail s1 timed k).1.closed = true ∧
+        (∀ w ∈ (closeTail s1 timed k).1.ws, w.st = .exited) ∧ Inv (closeTail s1 timed k).1 := by
       intro k
-      have h := closeTail_spec s1 k h4 h2
+      have h := closeTail_spec s1 timed k h4 h2 hns1
       exact ⟨h.ok, h.closed, h.dead, h.inv h4⟩
     cases o with
     | ok => exact key terminate
@@ -412,6 +544,17 @@ theorem closeOp_closed (s : State) (timed terminate : Bool) (hc : s.closed = tru
     closeOp s timed terminate = (s, .ok) := by
   unfold closeOp; simp [hc]
 
+theorem syncOp_spec (s : State) (c : Cmd) (a : AState) (hi : Inv s) (hne : a ≠ .default) :
+    Inv (syncOp s c a).1 ∧ (syncOp s c a).2 ≠ .hang := by
+  obtain ⟨h1, h2⟩ := asyncOp_spec s c a hi
+  unfold syncOp
+  rcases hr : asyncOp s c a with ⟨s1, o⟩
+  rw [hr] at h1 h2
+  cases o with
+  | ok => exact waitOp_spec s1 a false h1 hne
+  | err x => exact ⟨h1, by simp⟩
+  | hang => exact absurd rfl h2
+
 /-- the invariant is preserved by every call, and no call blocks forever -/
 theorem step_inv (s : State) (op : Op) (hi : Inv s) : Inv (s.step op).1 ∧ (s.step op).2 ≠ .hang := by
   cases op with
@@ -429,6 +572,9 @@ theorem step_inv (s : State) (op : Op) (hi : Inv s) : Inv (s.step op).1 ∧ (s.s
     | false =>
       obtain ⟨h1, _, _, h4⟩ := closeOp_spec s t k hi hc
       exact ⟨h4, by rw [h1]; simp⟩
+  | resetSync => exact syncOp_spec s _ _ hi (by simp)
+  | stepSync => exact syncOp_spec s _ _ hi (by simp)
+  | callSync => exact syncOp_spec s _ _ hi (by simp)
 
 theorem mkWorkers_idx (n : Nat) (script : List (Nat × FaultAt)) :
     (mkWorkers n script).map Worker.idx = List.range n := by
@@ -442,13 +588,41 @@ theorem totalFail_zero : ∀ ws : List Worker, (∀ w ∈ ws, w.inbox = []) → 
   | w :: ws, h => by
     simp [totalFail, h w List.mem_cons_self, totalFail_zero ws (fun w' hw' => h w' (List.mem_cons_of_mem _ hw'))]
 
-theorem init_inv (n : Nat) (script : List (Nat × FaultAt)) : Inv (init true n script) := by
+/-- no `stuck` fault anywhere in the script -/
+def NoStuckScript (script : List (Nat × FaultAt)) : Prop := ∀ p ∈ script, p.2.kind ≠ .stuck
+
+theorem init_base (f f2 : Bool) (n : Nat) (script : List (Nat × FaultAt)) :
+    Base (init f n script f2).ws (init f n script f2).errq := by
   have hall : ∀ w ∈ mkWorkers n script, w.st = .alive ∧ w.pipeOpen = true ∧ w.inbox = [] := by
     intro w hw
     unfold mkWorkers at hw
     obtain ⟨i, _, rfl⟩ := List.mem_map.mp hw
     exact ⟨rfl, rfl, rfl⟩
-  refine ⟨rfl, ⟨?_, ?_, ?_, ?_, ?_⟩, fun _ h => absurd rfl h, fun h => by cases h⟩
+  refine ⟨?_, ?_, ?_, ?_, ?_⟩
+  · show ((mkWorkers n script).map Worker.idx).Nodup
+    rw [mkWorkers_idx]; exact List.nodup_range
+  · intro w hw hp; rw [(hall w hw).2.1] at hp; cases hp
+  · intro w hw hh; rw [(hall w hw).1] at hh; cases hh
+  · show totalFail (mkWorkers n script) ≤ 0
+    rw [totalFail_zero _ (fun w hw => (hall w hw).2.2)]; exact Nat.le_refl 0
+  · intro p hp; cases hp
+
+theorem init_inv (n : Nat) (script : List (Nat × FaultAt)) (hs : NoStuckScript script) (f2 : Bool := true) :
+    Inv (init true n script f2) := by
+  have hall : ∀ w ∈ mkWorkers n script, w.st = .alive ∧ w.pipeOpen = true ∧ w.inbox = [] := by
+    intro w hw
+    unfold mkWorkers at hw
+    obtain ⟨i, _, rfl⟩ := List.mem_map.mp hw
+    exact ⟨rfl, rfl, rfl⟩
+  have hns : NS (mkWorkers n script) := by
+    intro w hw
+    unfold mkWorkers at hw
+    obtain ⟨i, _, rfl⟩ := List.mem_map.mp hw
+    refine ⟨rfl, ?_⟩
+    intro f hf
+    obtain ⟨p, hp, rfl⟩ := List.mem_map.mp hf
+    exact hs p (List.mem_filter.mp hp).1
+  refine ⟨rfl, ⟨?_, ?_, ?_, ?_, ?_⟩, fun _ h => absurd rfl h, fun h => (by cases h), hns⟩
   · show ((mkWorkers n script).map Worker.idx).Nodup
     rw [mkWorkers_idx]; exact List.nodup_range
   · intro w hw hp; rw [(hall w hw).2.1] at hp; cases hp
